@@ -22,6 +22,9 @@ struct Attempt {
     bool acceptResume;
     int cut;
     bool fin;   // FIN instead of RST
+    // the connection ends with a see-other-host stream error pointing back at the harness (the client reconnects by itself):
+    // 0 = no, 1 = <stream:error/> alone, 2 = <stream:error/></stream:stream> in one write
+    int redirect = 0;
 };
 
 struct Request {
@@ -38,6 +41,8 @@ struct Exec {
     QString smId;
     bool resumableSession = false;   // model: the last established session can be resumed
     bool verbose = false;
+    bool redirected = false;   // the last attempt ended with a redirect: the next TCP connection was opened by the client itself
+    bool redirectGivenUp = false;   // ... or the client did not follow it and is disconnected
     QStringList trace;
 
     explicit Exec(int worker) : rig(worker) { }
@@ -51,12 +56,31 @@ struct Exec {
     {
         *established = false;
         *resumed = false;
-        auto cutHere = [&](int point, bool negotiationComplete = false) {
+        // headerOwed: the client has opened a stream that the server has not answered yet (a stream error needs the header first)
+        auto cutHere = [&](int point, bool negotiationComplete = false, bool headerOwed = false) {
             if (a.cut == point) {
                 if (negotiationComplete) {
                     *established = true;   // the last negotiation element was delivered: a session may be reported
                 }
                 trace << QStringLiteral("cut %1").arg(QString::fromLatin1(cutNames[point]));
+                if (a.redirect) {
+                    const int before = rig.server.acceptedCount();
+                    rig.server.write((headerOwed ? serverHeader() : QByteArray()) + "<stream:error><see-other-host xmlns='urn:ietf:params:xml:ns:xmpp-streams'>" + rig.server.host().toUtf8() + ":" + QByteArray::number(rig.server.port()) +
+                                     "</see-other-host></stream:error>" + (a.redirect == 2 ? "</stream:stream>" : ""));
+                    // either the client follows the redirect (a new TCP connection that stays open) or it gives up and is disconnected
+                    rig.server.pumpUntil([&] { return rig.server.acceptedCount() > before || (rig.csock()->state() == QAbstractSocket::UnconnectedState && !rig.sp()->redirect.has_value()); }, 3000);
+                    rig.server.barrier(rig.csock());   // (what the client wrote on the new connection is read by the next attempt)
+                    redirected = rig.server.acceptedCount() > before && rig.csock()->state() == QAbstractSocket::ConnectedState;
+                    if (!redirected) {
+                        // not following a redirect is not a violation of this property: it counts as a plain connection loss
+                        if (rig.server.peer()) {
+                            rig.server.closePeer(true);
+                        }
+                        rig.sync();
+                        redirectGivenUp = true;
+                    }
+                    return true;
+                }
                 rig.server.closePeer(!a.fin);
                 rig.sync();
                 return true;
@@ -65,11 +89,15 @@ struct Exec {
         };
         const int connectedBefore = rig.connectedSignals;
         auto items = rig.sync();
+        if (rig.client->isConnected() || rig.client->isAuthenticated()) {
+            problem(QStringLiteral("session-reported-before-negotiation-finished"),
+                    QStringLiteral("attempt %1: a fresh TCP connection was just opened and nothing is negotiated, but isConnected()=%2 isAuthenticated()=%3").arg(attemptNo).arg(rig.client->isConnected()).arg(rig.client->isAuthenticated()));
+        }
         if (!ClientRig::firstElement(items).startsWith("<stream:stream")) {
             problem(QStringLiteral("no-fresh-stream-header"), QStringLiteral("attempt %1 did not start with a stream header: %2").arg(attemptNo).arg(QString::fromUtf8(items.join(' ').left(120))));
             return -2;
         }
-        if (cutHere(AfterAccept)) {
+        if (cutHere(AfterAccept, false, true)) {
             return 0;
         }
         const bool sasl2 = a.variant == Sasl2Bind2Sm;
@@ -87,7 +115,7 @@ struct Exec {
                 problem(QStringLiteral("negotiation-not-restarted"), QStringLiteral("attempt %1: expected stream restart, got %2").arg(attemptNo).arg(QString::fromUtf8(items.join(' ').left(160))));
                 return -2;
             }
-            if (cutHere(AfterSuccess)) {
+            if (cutHere(AfterSuccess, false, true)) {
                 return 0;
             }
             const bool sm = a.variant != SaslBind;
@@ -224,7 +252,8 @@ struct Exec {
             rig.sync();
         }
         if (cutHere(AfterEstablished)) {
-            if (!resumableSession) {
+            // (after a redirect the requests of a session that cannot be resumed are demanded complete when the next session is established)
+            if (!resumableSession && !(a.redirect && redirected)) {
                 for (auto &r : requests) {
                     r.mustBeDone = true;
                 }
@@ -252,7 +281,15 @@ struct Exec {
 
     void checkDisconnected(const Attempt &a, int attemptNo, bool established, int connectedBefore)
     {
-        const QString ctx = QStringLiteral("attempt %1 (%2, cut %3%4)").arg(attemptNo).arg(QString::fromLatin1(variantNames[a.variant]), QString::fromLatin1(cutNames[a.cut]), a.fin ? QStringLiteral(", FIN") : QString());
+        const QString ctx = QStringLiteral("attempt %1 (%2, cut %3%4)").arg(attemptNo).arg(QString::fromLatin1(variantNames[a.variant]), QString::fromLatin1(cutNames[a.cut]), a.redirect ? QStringLiteral(", redirect") : a.fin ? QStringLiteral(", FIN") : QString());
+        if (a.redirect && redirected) {
+            // the client is on its way to the other host: it must not report a session (checked when the next attempt starts)
+            if (!established && rig.connectedSignals != connectedBefore) {
+                problem(QStringLiteral("session-reported-before-negotiation-finished"), ctx + QStringLiteral(": connected() was emitted although the negotiation never finished"));
+            }
+            checkRequests(ctx);
+            return;
+        }
         if (rig.client->state() != QXmppClient::DisconnectedState || rig.client->isConnected()) {
             problem(QStringLiteral("not-disconnected-after-loss"), QStringLiteral("%1: state()=%2 isConnected()=%3 after the connection was lost").arg(ctx).arg(int(rig.client->state())).arg(rig.client->isConnected()));
         }
@@ -271,9 +308,9 @@ QJsonObject caseJson(const std::vector<Attempt> &as)
     QJsonArray arr;
     QStringList desc;
     for (const auto &a : as) {
-        arr.append(QJsonObject { { QStringLiteral("variant"), a.variant }, { QStringLiteral("accept"), a.acceptResume }, { QStringLiteral("cut"), a.cut }, { QStringLiteral("fin"), a.fin } });
+        arr.append(QJsonObject { { QStringLiteral("variant"), a.variant }, { QStringLiteral("accept"), a.acceptResume }, { QStringLiteral("cut"), a.cut }, { QStringLiteral("fin"), a.fin }, { QStringLiteral("redirect"), a.redirect } });
         desc << QStringLiteral("%1/%2/cut=%3%4").arg(QString::fromLatin1(variantNames[a.variant]), a.acceptResume ? QStringLiteral("resume-ok") : QStringLiteral("resume-refused"), QString::fromLatin1(cutNames[a.cut]),
-                                                   a.fin ? QStringLiteral("(FIN)") : QString());
+                                                   a.redirect == 2 ? QStringLiteral("(redirect+close)") : a.redirect ? QStringLiteral("(redirect)") : a.fin ? QStringLiteral("(FIN)") : QString());
     }
     return { { QStringLiteral("attempts"), arr }, { QStringLiteral("desc"), desc.join(QStringLiteral(" ; ")) } };
 }
@@ -290,7 +327,8 @@ bool runCase(EnumCtx &ctx, const std::vector<Attempt> &as)
     bool exists = true;
     for (size_t i = 0; i < as.size(); ++i) {
         const int connectedBefore = x.rig.connectedSignals;
-        const bool ok = i == 0 ? x.rig.connectClient(x.rig.baseConfig()) : x.rig.reconnectClient();
+        const bool ok = i == 0 ? x.rig.connectClient(x.rig.baseConfig()) : (x.redirected ? true : x.rig.reconnectClient());
+        x.redirected = false;
         if (!ok) {
             x.problem(QStringLiteral("reconnect-failed"), QStringLiteral("attempt %1: the client did not open a TCP connection").arg(i + 1));
             break;
@@ -307,6 +345,9 @@ bool runCase(EnumCtx &ctx, const std::vector<Attempt> &as)
         if (r == 0) {
             x.checkDisconnected(as[i], int(i + 1), established, connectedBefore);
             ctx.count(QStringLiteral("cuts:") + QString::fromLatin1(cutNames[as[i].cut]));
+            if (as[i].redirect) {
+                ctx.count(x.redirected ? QStringLiteral("redirects_followed") : QStringLiteral("redirects_given_up"));
+            }
         } else {
             ctx.count(resumed ? QStringLiteral("final_resumed") : QStringLiteral("final_new_session"));
         }
@@ -358,7 +399,7 @@ int main(int argc, char **argv)
         std::vector<Attempt> as;
         for (const auto &v : ctx.replayCase.value(QStringLiteral("attempts")).toArray()) {
             const auto o = v.toObject();
-            as.push_back({ o.value(QStringLiteral("variant")).toInt(), o.value(QStringLiteral("accept")).toBool(), o.value(QStringLiteral("cut")).toInt(), o.value(QStringLiteral("fin")).toBool() });
+            as.push_back({ o.value(QStringLiteral("variant")).toInt(), o.value(QStringLiteral("accept")).toBool(), o.value(QStringLiteral("cut")).toInt(), o.value(QStringLiteral("fin")).toBool(), o.value(QStringLiteral("redirect")).toInt() });
         }
         runCase(ctx, as);
         return ctx.finish();
@@ -372,6 +413,13 @@ int main(int argc, char **argv)
                 cuts.push_back({ v, bool(acc), c, false });
                 if (ctx.thorough() || c == AfterFeatures2 || c == AfterEstablished || c == AfterSuccess) {
                     cuts.push_back({ v, bool(acc), c, true });
+                }
+                // see-other-host instead of a connection loss
+                if (ctx.thorough() || c == AfterAccept || c == AfterFeatures2 || c == AfterEstablished || c == AfterEnabled) {
+                    cuts.push_back({ v, bool(acc), c, false, 1 });
+                    if (ctx.thorough() || c == AfterEstablished) {
+                        cuts.push_back({ v, bool(acc), c, false, 2 });
+                    }
                 }
             }
         }
@@ -401,7 +449,7 @@ int main(int argc, char **argv)
     // 3 attempts
     if (maxAttempts >= 3) {
         for (const auto &c1 : cuts) {
-            if (c1.acceptResume || (c1.fin && !ctx.thorough())) {
+            if (c1.acceptResume || ((c1.fin || c1.redirect) && !ctx.thorough())) {
                 continue;
             }
             for (const auto &c2 : cuts) {
